@@ -135,16 +135,16 @@ def run(case, drv) -> Outcome:
         L = torch.linalg.cholesky((nd.reshape(coils, -1) @ nd.reshape(coils, -1).conj().T) / nd.reshape(coils, -1).shape[1])
         wn = torch.linalg.solve_triangular(L, nd.reshape(coils, -1), upper=False)
         cov = (wn @ wn.conj().T) / wn.shape[1]
-        if float((cov - torch.eye(coils)).abs().max()) > 1e-3:
+        if float((cov - torch.eye(coils)).abs().nan_to_num(nan=float('inf')).max()) > 1e-3:
             viol = viol or v('prewhiten-cov', 'whitened noise does not have unit covariance (reference computation)')
         # the library's prewhitening of the *data* must equal L^-1 applied along the coil axis
         want = torch.linalg.solve_triangular(L, kd.data.movedim(1, -1).reshape(-1, coils, 1), upper=False).reshape(*kd.data.movedim(1, -1).shape).movedim(-1, 1)
-        if float((yw - want).abs().max()) > TOL * float(want.abs().max()):
+        if float((yw - want).abs().nan_to_num(nan=float('inf')).max()) > TOL * float(want.abs().max()):
             viol = viol or v('prewhiten', 'prewhiten_kspace(kdata, noise) is not L^-1 (noise Cholesky factor) applied to the coil axis')
     yv = yw.reshape(-1).to(torch.complex128)
 
     def rel(a, b):
-        return float((a.reshape(-1).to(torch.complex128) - b.reshape(-1)).abs().max()) / max(1e-12, float(b.abs().max()))
+        return float((a.reshape(-1).to(torch.complex128) - b.reshape(-1)).abs().nan_to_num(nan=float('inf')).max()) / max(1e-12, float(b.abs().max()))
 
     # ---- sensitivity maps configured as a callable: every reconstruction class computes them from the coil images F^H W y
     # (prewhitened) of the data it is given at construction, and then behaves as if configured with the maps themselves
